@@ -210,6 +210,11 @@ class Fmt:
 
 
 @dataclass(frozen=True)
+class RStripEnd:
+    """Marks that everything before it was right-stripped of white space."""
+
+
+@dataclass(frozen=True)
 class Str(V):
     parts: tuple
     rstripped: bool = False
